@@ -588,6 +588,27 @@ pub fn random_run<W: Write>(tr: &mut Trace<W>, cfg: Cfg, prof: &Profile, seed: u
             26..=40 => ("Mutate", json!({"e": e, "k": k})),
             41..=46 if prof.vis => {
                 let v = rng.chance(1, 2);
+                // half of the time aim at an entity the client can currently see
+                let seen: Vec<String> = ents
+                    .iter()
+                    .filter(|x| sim.op_enabled("Despawn", &json!({"e": x})) && sim.is_visible(&c, x) == Some(true))
+                    .cloned()
+                    .collect();
+                let e = if !seen.is_empty() && rng.chance(1, 2) { rng.pick(&seen).clone() } else { e };
+                if rng.chance(1, 3) && sim.op_enabled("Despawn", &json!({"e": e})) && !(prof.rel && prof.clean) {
+                    // a visibility change and the end of the entity (or of its replication) inside one tick window
+                    let v = if rng.chance(3, 4) { !sim.is_visible(&c, &e).unwrap_or(v) } else { v };
+                    tr.step(&mut sim, "SetVis", json!({"c": c, "e": e, "v": v}));
+                    if rng.chance(1, 3) {
+                        tr.step(&mut sim, "SetVis", json!({"c": c, "e": e, "v": !v}));
+                    }
+                    if rng.chance(1, 3) {
+                        tr.step(&mut sim, "SrvFrame", json!({"tick": false, "dt": 0}));
+                    }
+                    let end = if prof.marks && rng.chance(1, 3) && sim.op_enabled("Unmark", &json!({"e": e})) { "Unmark" } else { "Despawn" };
+                    tr.step(&mut sim, end, json!({"e": e}));
+                    continue;
+                }
                 if rng.chance(1, 3) {
                     // repeated and mutually cancelling calls inside one tick window
                     tr.step(&mut sim, "SetVis", json!({"c": c, "e": e, "v": v}));
